@@ -1,6 +1,7 @@
 import KaVerif.Model.Eval
 import KaVerif.Model.Session
 import KaVerif.Model.Render
+import KaVerif.Model.Interval
 /-
   Helper lemmas for Props/Pipeline.lean: how the unified evaluator (`Model/Eval.lean`) reduces on
   plain numbers, the kernel-checked table facts about the generated registry it goes through, and
@@ -757,5 +758,74 @@ theorem dispatch_sum (n : Nat) (xs : List Num) (hc : ∀ x ∈ xs, Canon x) :
     | ok r =>
       have hcr : simplify r = .ok r := foldlM_add_canon t h r (hc h (by simp)) hr
       simp only [liftN, simplifyVal, hcr, liftE, Except.map]
+
+/-! ### fragment: interval construction and membership (C07) inside the unified evaluator -/
+
+def tInterval : Nat := Gen.Registry.typeNames.idxOf "Interval"
+
+/-- **Table fact (intervals).** -/
+theorem intv_table : ∀ a ∈ kinds3,
+    (∀ b ∈ kinds3, (resolveDesc "interval" [a, b] []).toOption = some (ch2 "interval|(Number, Number)|ka.functions.make_interval" .makeInterval)) ∧
+    (resolveDesc "contains" [cIntv, a] []).toOption =
+      some ⟨[tInterval, tNumber], none, "contains|(Interval, Number)|ka.functions.interval_contains", some .ivContains⟩ ∧
+    (resolveDesc "in" [a, cIntv] []).toOption =
+      some ⟨[tNumber, tInterval], none, "in|(Number, Interval)|ka.functions.in_interval", some .inInterval⟩ := by
+  decide +kernel
+
+/-- an interval value with exact bounds as the interval model's `Intv Rat` -/
+def toIntv (a b : Num) : Interval.Intv Rat := ⟨a.toRat, b.toRat⟩
+
+theorem rnum_le (n : Nat) (x y : Num) :
+    rnum (fun nm as => dispatchV (n + 1) nm as []) "<=" [x, y] = .ok (.int (if cmpLe x y then 1 else 0)) := by
+  have t := (num_table2 _ (numClass_mem x) _ (numClass_mem y)).2.2.2.2.2.2.2.1
+  simp only [rnum, List.map, dispatch_cmp n "<=" _ x y t, bind, Except.bind, cmpByName, b2v]
+
+theorem truthy_ite (c : Bool) : truthy (.int (if c then 1 else 0)) = c := by
+  cases c <;> decide
+
+/-- **`[a, b]`**: the interval literal builds the interval `Intv.make` describes (`a > b` collapses to `[0, 0]`);
+    comparisons are exact on every numeric kind. -/
+theorem dispatch_interval (n : Nat) (a b : Num) :
+    ∃ lo hi, dispatchV (n + 2) "interval" [.num a, .num b] [] = .ok (.intv lo hi)
+      ∧ toIntv lo hi = Interval.Intv.make a.toRat b.toRat := by
+  have t := (intv_table _ (numClass_mem a)).1 _ (numClass_mem b)
+  rw [dispatchV_step (c := ch2 _ .makeInterval) (code := .makeInterval) (by simpa [classOf] using t) rfl]
+  simp only [ch2, coerceArgs_num2, BodyCode.run, bMakeInterval, bind, Except.bind, rnum_le, truthy_ite]
+  by_cases h : cmpLe a b = true
+  · refine ⟨a, b, ?_, ?_⟩
+    · simp [h, simplifyVal]
+    · have : a.toRat ≤ b.toRat := by simpa [cmpLe] using h
+      simp [toIntv, Interval.Intv.make, this]
+  · refine ⟨.int 0, .int 0, ?_, ?_⟩
+    · simp [h, simplifyVal]
+    · have : ¬ a.toRat ≤ b.toRat := by simpa [cmpLe] using h
+      have h0 : (Num.int 0).toRat = 0 := by simp [toRat]
+      simp only [toIntv, Interval.Intv.make, this, if_false, h0]
+
+theorem ivContains_eq (n : Nat) (a b x : Num) :
+    ivContains (fun nm as => dispatchV (n + 1) nm as []) a b x
+      = .ok (.int (Interval.Intv.contains (toIntv a b) x.toRat)) := by
+  simp only [ivContains, rnum_le, bind, Except.bind, pyLin, liftE, Interval.Intv.contains, Interval.Intv.b2i, toIntv, cmpLe]
+  by_cases h1 : a.toRat ≤ x.toRat <;> by_cases h2 : x.toRat ≤ b.toRat <;> simp [h1, h2]
+
+theorem coerceArgs_in (t1 t2 : Nat) (va : Option Nat) (x a b : Num) :
+    coerceArgs [t1, t2] va [.num x, .intv a b] = .ok [.num x, .intv a b] := by
+  cases va <;> simp [coerceArgs, coerceTo, bind, Except.bind]
+
+theorem coerceArgs_contains (t1 t2 : Nat) (va : Option Nat) (x a b : Num) :
+    coerceArgs [t1, t2] va [.intv a b, .num x] = .ok [.intv a b, .num x] := by
+  cases va <;> simp [coerceArgs, coerceTo, bind, Except.bind]
+
+/-- **`x in I`** and **`contains(I, x)`** are the interval model's membership test, exactly, on every numeric kind -/
+theorem dispatch_in_interval (n : Nat) (x a b : Num) :
+    dispatchV (n + 2) "in" [.num x, .intv a b] [] = .ok (.num (.int (Interval.Intv.inI x.toRat (toIntv a b))))
+    ∧ dispatchV (n + 2) "contains" [.intv a b, .num x] [] = .ok (.num (.int (Interval.Intv.contains (toIntv a b) x.toRat))) := by
+  obtain ⟨_, t2, t3⟩ := intv_table _ (numClass_mem x)
+  constructor
+  · rw [dispatchV_step (c := ⟨[tNumber, tInterval], none, _, some .inInterval⟩) (code := .inInterval) (by simpa [classOf] using t3) rfl]
+    simp only [coerceArgs_in, BodyCode.run, bInInterval, ivContains_eq, bind, Except.bind, Except.map, simplifyVal, liftE, simplify]
+    rfl
+  · rw [dispatchV_step (c := ⟨[tInterval, tNumber], none, _, some .ivContains⟩) (code := .ivContains) (by simpa [classOf] using t2) rfl]
+    simp only [coerceArgs_contains, BodyCode.run, bIvContains, ivContains_eq, bind, Except.bind, Except.map, simplifyVal, liftE, simplify]
 
 end KaVerif.Eval
